@@ -8,7 +8,7 @@
    DECLS    = name ',' version ',' dir ',' table  joined by ';'      (one stack, called S)
    TAGS     = name ',' tag ',' version            joined by ';'
    FS       = path joined by ';'
-   outcome  = ok | err=Kind ;  decls = name ',' version joined by ';' ;  tags = name ',' tag ',' version *)
+   outcome  = ok | err=Kind ;  decls = name ',' version ',' dir ',' table joined by ';' ;  tags = name ',' tag ',' version *)
 let dec_opt (s : Stdlib.String.t) : ascii list option =
   if s = "N" then None else Some (dec_str (Stdlib.String.sub s 1 (Stdlib.String.length s - 1)))
 
@@ -47,7 +47,7 @@ let handle (f : Stdlib.String.t array) : Stdlib.String.t =
     let fuel = nat_of_int (Stdlib.List.length w + 2) in
     let (r, st') = remove skip once fuel w c st (dec_str f.(9)) (dec_str f.(10)) (bool_of_field f.(11)) (bool_of_field f.(12)) in
     let out = (match r with Ok _ -> "ok" | Err k -> "err=" ^ err_name k) in
-    let ds = Stdlib.String.concat ";" (Stdlib.List.map (fun ((((_, n), v), _), _) -> enc_str n ^ "," ^ enc_str v) st'.rdb.adecls) in
+    let ds = Stdlib.String.concat ";" (Stdlib.List.map (fun ((((_, n), v), _), (dir, tb)) -> enc_str n ^ "," ^ enc_str v ^ "," ^ enc_str dir ^ "," ^ enc_str tb) st'.rdb.adecls) in
     let ts = Stdlib.String.concat ";" (Stdlib.List.map (fun ((((_, n), t), _), v) -> enc_str n ^ "," ^ enc_str t ^ "," ^ enc_str v) st'.rdb.atags) in
     let ps = Stdlib.String.concat ";" (Stdlib.List.map enc_str st'.rfs) in
     out ^ "\t" ^ ds ^ "\t" ^ ts ^ "\t" ^ ps
